@@ -6,7 +6,7 @@ use crate::mon::common;
 use crate::mon::genhist::{self, compare_obs, feed, observe, GModel, FORM_NAMES, MAX_INPUT, N_FORMS};
 use crate::rng::{fnv64, Rng};
 use crate::work::bytes::{self, Words};
-use ssdeep::Generator;
+use ssdeep::{Generator, GeneratorError};
 
 const HOOK: bool = cfg!(a4lg_ffuzzy_verif);
 
@@ -38,6 +38,13 @@ impl Hist {
         self.log.push(format!("set_fixed_input_size{}({})", if usize_form { "_in_usize" } else { "" }, n));
         l.eval(1);
         let s = self.sig();
+        if let Err(e) = got {
+            // the error's own classification agrees with its variant
+            let too_large = matches!(e, GeneratorError::FixedSizeTooLarge | GeneratorError::InputSizeTooLarge);
+            l.check(e.is_size_too_large_error() == too_large, "error-classification", || {
+                (format!("C12|is_size_too_large_error|{:?}", e), format!("{:?}.is_size_too_large_error() = {}", e, e.is_size_too_large_error()))
+            });
+        }
         l.check(got == want, "hint-result", || {
             (s.clone(), format!("set_fixed_input_size({}) returned {:?} but the contract demands {:?} after [{}]", n, got, want, self.log.join("; ")))
         });
@@ -206,7 +213,7 @@ fn phase(h: &mut Hist, l: &mut Local, rng: &mut Rng, words: &Words, first: bool)
     }
 }
 
-fn history(l: &mut Local, rng: &mut Rng, words: &Words) {
+pub fn history(l: &mut Local, rng: &mut Rng, words: &Words) {
     let mut h = Hist { g: Generator::new(), m: GModel::new(), log: Vec::new(), eliminated_before_reset: false, midstream_hint: false, resets: 0 };
     let phases = rng.urange(1, 3);
     let r = guard(|| {
